@@ -155,6 +155,6 @@ def tree_digest(tops=("archive", "inputs", "cache")):
     h = hashlib.sha256()
     for top in tops:
         for p, d in sorted(tree_hashes(top).items()):
-            h.update(p.encode())
+            h.update(p.encode("utf-8", "surrogateescape"))
             h.update(d.encode())
     return h.hexdigest()
